@@ -52,6 +52,10 @@ def mc_configs(quick: bool) -> List[Tuple[str, Dict[str, Any], bool]]:
          b(Prog=Raw("<- Prog_2App"), DamageKinds={"missing"}, FaultBudget=1, Backend="s3cas", LockKind="none", **FIX), False),
         ("append, pointer naming a missing LOWER version, append, pointer lost, reopen, append (CAS backend)",
          b(Prog=Raw("<- Prog_1AppCreateApp"), DamageKinds={"danglinglow", "missing"}, FaultBudget=2, Backend="s3cas", **ONE, **FIX), True),
+        ("object storage: the metadata PUT lands but reports an error, then pointer lost, reopen, append",
+         b(Prog=Raw("<- Prog_1AppCreateApp"), FaultKinds={"after"}, DamageKinds={"missing", "garbage"}, FaultBudget=2, Backend="s3cas", **ONE, **FIX), True),
+        ("[must fail] metadata write outside the clean-failure handler",
+         b(Prog=Raw("<- Prog_1AppCreateApp"), FaultKinds={"after"}, DamageKinds={"missing"}, FaultBudget=2, Backend="s3cas", **ONE, **dict(FIX, FixMetaInTry=False)), False),
         ("[must fail] commit that keeps its metadata file on clean failure", b(Prog=Raw("<- Prog_1AppCreateApp"), FaultKinds={"before"}, DamageKinds=dk, FaultBudget=2, **ONE, **dict(FIX, FixOrphanMeta=False)), False),
         ("[known finding, must fail] stale pointer", b(Prog=Raw("<- Prog_1AppCreateApp"), DamageKinds={"stale"}, FaultBudget=1, **ONE, **FIX), False),
         ("[known finding, must fail] crash after metadata write + lost pointer", b(Prog=Raw("<- Prog_CrashThenOpen"), DamageKinds={"missing"}, CrashOK=True, FaultBudget=2, **FIX), False),
@@ -116,6 +120,10 @@ def run(ctx: Ctx) -> None:
                 ks = r.sample(kinds, 3 if quick else len(kinds))
                 for kind in ks:
                     jobs.append(("list", [["c1", k], ["fault", "c1", "before", "oserror"], ["until", "c1", 1], ["env", "damage_" + kind], ["c1", 400], ["r1", 400]]))
+            if backend != "local":
+                # the metadata PUT lands and reports an error (placements at other requests are dropped below)
+                for k in range(0, first_op + 4):
+                    jobs.append(("list", [["c1", k], ["fault", "c1", "after", "oserror"], ["until", "c1", 1], ["env", "damage_" + r.choice(kinds)], ["c1", 400], ["r1", 400]]))
             for kind in kinds:      # every concrete byte string at least once, after a successful commit too
                 jobs.append(("list", [["until", "c1", 1], ["env", "damage_" + kind], ["c1", 400], ["r1", 400]]))
                 jobs.append(("list", [["until", "c1", 2], ["env", "damage_" + kind], ["c1", 400], ["r1", 400]]))
@@ -132,6 +140,8 @@ def run(ctx: Ctx) -> None:
                 ri = next((i for i, e in enumerate(evs) if e["k"] == "Ret" and e["a"] == "c1"), len(evs))
                 if fi is not None and fi > ri:
                     return False                 # the fault fell into a later operation: not this scenario
+                if fi is not None and evs[fi].get("when") == "after" and not (evs[fi].get("cls") == "meta" and evs[fi].get("op") == "write_file"):
+                    return False                 # after-effect faults are modelled at the metadata write (here) and the pointer write (C04)
                 return "ambiguous" not in t["outcomes"].get("c1", [])   # possibly-committed versions: see assumptions
 
             traces = [t for t in traces if usable(t)]
